@@ -637,7 +637,7 @@ func runC04(tier string, args []string) {
 			add(mk(rp, k))
 		}
 	}
-	nSeeded := run.Pick(12, 40)
+	nSeeded := run.Pick(6, 40)
 	for i := 0; i < nSeeded && len(points) > 0; i++ {
 		rp := points[rng.Intn(len(points))]
 		if restartPhase(rp) || hits[rp] < 2 {
@@ -648,7 +648,7 @@ func runC04(tier string, args []string) {
 	// chains: a crash during the workload, then the restart itself is crashed (once or twice)
 	rpts := []c04Crash{{"daemon", "scan.before_load", 1}, {"daemon", "scan.before_restart", 1}, {"daemon", "scan.restarted", 1}, {"daemon", "restart.incomplete", 1}, {"daemon", "upd.truncated", 1}, {"daemon", "upd.loaded", 2}, {"daemon", "scan.before_load", 3}, {"daemon", "scan.restarted", 4}, {"daemon", "upd.truncated", 2}, {"daemon", "upd.written", 1}}
 	firsts := []c04Crash{{"daemon", "end", 1}, {"daemon", "submit.started", 3}, {"daemon", "daemon.pid_saved", 2}, {"daemon", "submit.before_start", 4}, {"daemon", "remote.id_saved", 1}, {"daemon", "submit.input_read", 5}}
-	nChains := run.Pick(10, 60)
+	nChains := run.Pick(8, 60)
 	for i := 0; i < nChains; i++ {
 		c := []c04Crash{firsts[rng.Intn(len(firsts))], rpts[i%len(rpts)]}
 		if i%3 == 2 {
@@ -661,7 +661,7 @@ func runC04(tier string, args []string) {
 		fmt.Sscan(args[1], &idx)
 		specs = []*c04Spec{specs[idx]}
 	}
-	par := 12
+	par := 16
 	sem := make(chan struct{}, par)
 	var wg sync.WaitGroup
 	for _, sp := range specs {
